@@ -191,11 +191,20 @@ def run(tier, seed):
     for how in ("minc", "inc", "use", "mixinc"):
         for (n, tail) in ((70, 0), (40, 30), (130, 63)):
             fam.append(("siblings_" + how, "%d+%d" % (n, tail), siblings(n, how, tail)))
+    import copy
     for (kind, n, c) in fam:
         nid += 1
         c["id"] = nid
         cases.append(c)
         by_id[str(nid)] = {"kind": kind, "n": n}
+        if kind in ("include_chain", "mixed_chain", "include_cycle", "name_chain", "macro_chain") and (n in (1, 2, 3) or n >= 62):
+            # the same shape through the STRING entry point: the limit is the same for both
+            nid += 1
+            c2 = copy.deepcopy(c)
+            c2["id"] = nid
+            c2["fn"] = "preprocess_str"
+            cases.append(c2)
+            by_id[str(nid)] = {"kind": kind + "/str", "n": n}
     vlib.log("C09: %d cases" % len(cases))
     records, hcases, results = ppcheck.build_run_records(cases, "c09", check_origins=False, limit_ms=60000)
     for c, h in zip(cases, hcases):
